@@ -49,7 +49,7 @@ fn main() {
     // every case runs in a worker thread under a watchdog: a parser that does not terminate must not stall the
     // run (C05 "never loops"); the case is reported as HARNESS-TIMEOUT and the process exits (the runner resumes
     // with the next case)
-    let limit: u64 = std::env::var("HARNESS_CASE_TIMEOUT").ok().and_then(|s| s.parse().ok()).unwrap_or(30);
+    let limit: u64 = std::env::var("HARNESS_CASE_TIMEOUT").ok().and_then(|s| s.parse().ok()).unwrap_or(15);
     let stdout = std::io::stdout();
     let mut out = std::io::BufWriter::new(stdout.lock());
     for line in std::io::BufReader::new(file).lines() {
